@@ -12,6 +12,7 @@ import (
 	"github.com/goatcms/goatcore/app/bootstrap"
 	"github.com/goatcms/goatcore/app/gio"
 	"github.com/goatcms/goatcore/app/goatapp"
+	"github.com/goatcms/goatcore/app/injector"
 	"github.com/goatcms/goatcore/app/modules/commonm"
 	"github.com/goatcms/goatcore/app/modules/commonm/commservices"
 	"github.com/goatcms/goatcore/app/modules/ocm"
@@ -110,6 +111,7 @@ func (w *World) probe(a app.App, ctx app.IOContext) error {
 		Yield string `command:"?yield"`
 		Hold  string `command:"?hold"`
 		Task  string `command:"?task"`
+		Spawn string `command:"?spawn"`
 	}
 	if err := ctx.Scope().InjectTo(&deps); err != nil {
 		return err
@@ -119,6 +121,25 @@ func (w *World) probe(a app.App, ctx app.IOContext) error {
 		w.Inside[deps.Hold]++
 		if w.Inside[deps.Hold] > w.MaxInside[deps.Hold] {
 			w.MaxInside[deps.Hold] = w.Inside[deps.Hold]
+		}
+	}
+	if deps.Spawn != "" {
+		// the command starts two CONCURRENT tasks on its own scope: a slow one that succeeds and one
+		// that fails (--spawn=fail) or succeeds (--spawn=ok); the command itself returns at once
+		badBody := "probe --id=nested.bad --fail=return\n"
+		if deps.Spawn == "ok" {
+			badBody = "probe --id=nested.bad\n"
+		}
+		if err := w.Runner.Run(w.Pip(deps.ID+"-slow", "probe --id=nested.slow --yield=2\n", nil, nil, ctx.Scope())); err != nil {
+			return err
+		}
+		if err := w.Runner.Run(w.Pip(deps.ID+"-bad", badBody, nil, nil, ctx.Scope())); err != nil {
+			return err
+		}
+		// the command returns (and its scope is closed) only after the second task has ended, while the
+		// slow one may still be running
+		for len(w.EventsOf("nested.bad")) < 2 {
+			vsched.Yield()
 		}
 	}
 	n := 0
@@ -163,6 +184,20 @@ func (s *retSandbox) Run(ctx app.IOContext) error {
 		return ErrProbe
 	}
 	return nil
+}
+
+// Separated returns a scope that shares the root's data, events and injector but has its OWN
+// context - what pip:try builds for its body: a failure inside does not fail the root, yet the task
+// is registered with the root's task manager.
+func (w *World) Separated() (app.Scope, error) {
+	if _, err := w.Tasks.FromScope(w.Root); err != nil {
+		return nil, err
+	}
+	return scope.New(scope.Params{
+		DataScope:  w.Root,
+		EventScope: w.Root,
+		Injector:   injector.NewMultiInjector([]app.Injector{w.Root}),
+	}), nil
 }
 
 // Pip builds a pipeline submission for the runner seam.
